@@ -59,6 +59,16 @@ CHECKS = {
         "(every attribute/text/empty element appears exactly once) and that tag sequence numbers only add entries; every (document, option combination, expected Map) is replayed on the real "
         "decoders through the public setters, each document rendered in one of three concrete syntaxes (quotes, empty-element form, CDATA / numeric references, XML declaration, BOM, leading comment).",
    ref="DESIGN.md section 4, C01", technique="TLA+ transcription of the decode conventions, TLC enumeration of documents x all option combinations, spec->code replay"),
+ "C02": dict(
+   text="TLA+ specification MxjXmlEncode of the Map->XML encoder (attribute/text/element classification, sorting, list expansion, root rule) with an exact-bytes renderer; over the C01 document "
+        "space and every symmetric option combination TLC checks the fixed point Decode(Encode(Decode(d))) = Decode(d) with a single well-formed root on the specification (character-level, incl. "
+        "encoder-side vs decoder-side escaping), and prints the decoded Map with the exact bytes Map.Xml() must produce; the harness compares Map.Xml() byte for byte, XmlIndent token-wise, and executes the real round trip for both encoders.",
+   ref="DESIGN.md section 4, C02", technique="TLA+ encoder/decoder specs, fixed-point theorem in TLC, byte-exact spec->code replay plus real round trip"),
+ "C03": dict(
+   text="Same encoder specification applied to JSON-shaped values enumerated by the Map builder (attribute and text keys, empty containers, nil, nested/mixed lists, special characters, number and boolean tokens): "
+        "TLC checks per key path that the leaf sequences of the value and of Decode(Encode(value)) agree, one root, and an error exactly for non-scalar attribute entries; the harness compares the exact bytes of "
+        "Map.Xml(), Map.Xml(root), AnyXml (Map and every top-level value) under both empty-element syntaxes, token equivalence of the indented forms, and the real decode of the output with the specification's.",
+   ref="DESIGN.md section 4, C03", technique="TLA+ encoder spec + declarative leaf-preservation theorem (TLC), byte-exact spec->code replay"),
 }
 NOT_YET = "machinery for this property is not built yet in this round (design in DESIGN.md section 4); no claim is made"
 
